@@ -89,9 +89,28 @@ func RunDeferred() {
 	for len(deferred) > 0 {
 		f := deferred[0]
 		deferred = deferred[1:]
-		f()
+		func() {
+			// a deferred background computation that panics (an inline deadlock,
+			// for instance) ends like a thread of a controlled execution does
+			defer func() {
+				if p := recover(); p != nil {
+					msg := "panic"
+					switch v := p.(type) {
+					case string:
+						msg = v
+					case error:
+						msg = v.Error()
+					}
+					DeferredPanics = append(DeferredPanics, msg)
+				}
+			}()
+			f()
+		}()
 	}
 }
+
+// DeferredPanics collects the panics of deferred background computations.
+var DeferredPanics []string
 
 // labels for PointRec.Kind (informational; used for non-triviality rules)
 const (
@@ -117,6 +136,23 @@ type abortSentinel struct{}
 //
 //go:norace
 func On() bool { return on }
+
+// Inline reports the mode in which spawned functions run synchronously on the
+// single calling goroutine (neither a controlled execution nor a free run).
+func Inline() bool { return !on && !FreeRun }
+
+// InlineDeadlocks lists the lock operations that found their lock held while
+// only one goroutine exists: the lock is never released, the operation would
+// block forever. The operation panics instead so that the run can go on.
+var InlineDeadlocks []string
+
+func InlineDeadlock(op string) {
+	msg := "deadlock: " + op + " on a lock that is held and never released (single-goroutine run)"
+	if len(InlineDeadlocks) < 100 {
+		InlineDeadlocks = append(InlineDeadlocks, msg)
+	}
+	panic(msg)
+}
 
 // Begin starts a controlled execution; the calling goroutine becomes thread 0.
 //
